@@ -59,19 +59,21 @@ class C19(Harness):
 
     def spaces(self, tier, seed):
         q = tier == 'quick'
-        return [{'gen': 'sym1', 'n': 3 if q else 4, 'pmax': 2, 'pgen': 'sym1'},
+        return [{'gen': 'sym1', 'n': 4, 'pmax': 2, 'pgen': 'sym1'},
+                {'gen': 'sym1', 'n': 2 if q else 3, 'pmax': 3, 'pgen': 'sym1'},
                 {'gen': 'sym1', 'n': 4 if q else 5, 'pmax': 1, 'pgen': 'sym1'},
-                {'gen': 'alpha', 'n': 4 if q else 6, 'pmax': 2, 'pgen': 'alpha'},
+                {'gen': 'alpha', 'n': 5 if q else 6, 'pmax': 2, 'pgen': 'alpha'},
                 {'gen': 'symall', 'n': 2 if q else 3, 'pmax': 1, 'pgen': 'symall'},
-                {'gen': 'sym1', 'n': 5 if q else 7, 'pmax': 0, 'pgen': 'sym1'}] + \
+                {'gen': 'sym1', 'n': 6 if q else 7, 'pmax': 0, 'pgen': 'sym1'}] + \
             [{'gen': 'tmpl', 'tmpl': t, 'pmax': 1 if q else 2, 'pgen': 'sym1'}
              for t in ('code', 'mixed', 'blank', 'nbsp', 'crlf')]
 
     def bounds_text(self, tier):
         q = tier == 'quick'
         return ('texts of <= %d fully symbolic 1-byte characters (LF, CR, tab, space included), <= %d over the alphabet %r, '
-                '<= %d of the 1-3 byte classes; prefixes of <= 2 symbolic characters incl. whitespace and empty'
-                % (5 if q else 7, 4 if q else 6, ALPHA, 2 if q else 3))
+                '<= %d of the 1-3 byte classes; prefixes of <= 3 symbolic characters incl. whitespace and empty '
+                '(3-character prefixes with texts of <= %d characters, 2-character ones with <= 4)'
+                % (6 if q else 7, 5 if q else 6, ALPHA, 2 if q else 3, 2 if q else 3))
 
     def run(self, I, cfg):
         s = gen_ml_text(self, I, cfg)
